@@ -388,6 +388,22 @@ pub fn eval_tree(a: &A, st: &mut Stats, full: bool) -> Vec<Fail> {
             ex(&v)
         });
 
+        // predicates derived from the parent relation
+        {
+            let par_is_doc = f.parent[i].map(|p| f.kind[p] == K::Doc).unwrap_or(false);
+            chk!("has_document_parent", i, xot.has_document_parent(h), par_is_doc);
+            chk!("is_document_element", i, xot.is_document_element(h), par_is_doc && f.kind[i] == K::Elem);
+            // text_content_str: "" without children, the text of a single text child, otherwise nothing
+            let exp_tc: Option<bool> = match f.ch[i].as_slice() {
+                [] => Some(false),
+                [c] if f.kind[*c] == K::Text => Some(true),
+                _ => None,
+            };
+            let got_tc = xot.text_content_str(h).map(|t| !t.is_empty());
+            chk!("text_content_str", i, got_tc, exp_tc);
+            chk!("text_content", i, xot.text_content(h).is_some(), exp_tc == Some(true));
+        }
+
         // top_element / document_element
         if f.kind[0] == K::Doc {
             let de = f.ch[0].iter().copied().find(|c| f.kind[*c] == K::Elem);
